@@ -9,6 +9,7 @@ import io
 import json
 import os
 import random
+import re
 import shutil
 import tempfile
 from concurrent.futures import ProcessPoolExecutor
@@ -50,7 +51,7 @@ def documented_from_pages(tree, texts):
     for node in tree:
         for f in node["files"]:
             rel = "/".join(node["path"] + [f])
-            if "f_%s(" % ident(rel) in blob:
+            if re.search(r"(?<![A-Za-z0-9_])f_%s\(" % re.escape(ident(rel)), blob):
                 out.append(rel)
     return out
 
@@ -236,11 +237,18 @@ def judge(pid, beh, obs):
                 target = os.path.normpath(os.path.join(k, e if e.endswith(".rst") else e + ".rst"))
                 if target not in obs["out_files"]:
                     dangling.append([k, e])
+        # C13/C14's quantifier: "the input directory itself holding at least one .cmake file when auto-exclusion is on".
+        # Where it holds none (none left after the exclusion filters), the code skips the top directory's index but
+        # still descends; that the first-level indexes are then listed nowhere is outside the quantifier
+        top_carved_out = cfg["auto"] and not beh["indom"] and "" not in obs["indexes"] \
+            and not any(d == [] and f.endswith(".cmake") for d, f in beh["ideal"]["files"])
         for f in obs["out_files"]:
             d, b = os.path.dirname(f), os.path.basename(f)
             if b == "index.rst":
                 if d and cfg["recursive"]:
                     parent = os.path.dirname(d)
+                    if parent == "" and top_carved_out:
+                        continue
                     if os.path.basename(d) + "/index.rst" not in obs["indexes"].get(parent, {}).get("entries", []):
                         unlisted.append(f)
             elif b[:-4] not in obs["indexes"].get(d, {}).get("entries", []):
